@@ -46,7 +46,8 @@ def gen_history(H):
         k = H.weighted([("so", 3), ("mo_list", 2), ("mo_bool", 1), ("mo_agg", 1)])
         probs.append({"kind": k, "minimize": [bool(H.draw(2)) for _ in range(3)], "k": 2 + H.draw(2), "reuse_buffer": bool(H.draw(3) == 2),
                       # the form in which a multi-objective fitness function hands back its components (any iterable of numbers)
-                      "returns": H.pick(["list", "list", "tuple", "generator", "map", "ndarray"])})
+                      "returns": H.pick(["list", "list", "tuple", "generator", "map", "ndarray"]),
+                      "so_returns": H.pick(["float", "float", "int", "np.float64", "np.int64", "np.uint64", "np.uint32"])})
         # several live problems may be built over the SAME fitness-function object (other direction / other aggregate)
         mates = [j for j in range(i) if (probs[j]["kind"] == "so") == (k == "so")]
         if mates and H.draw(2):
@@ -55,6 +56,7 @@ def gen_history(H):
             probs[i]["k"] = probs[j]["k"]
             probs[i]["reuse_buffer"] = probs[j]["reuse_buffer"]
             probs[i]["returns"] = probs[j]["returns"]
+            probs[i]["so_returns"] = probs[j]["so_returns"]
     n_ind = 1 + H.draw(12) if H.draw(4) else 9 + H.draw(24)
     calls = []
     for _ in range(1 + H.draw(8)):
@@ -62,7 +64,8 @@ def gen_history(H):
         members = [H.draw(n_ind) for _ in range(size)]
         calls.append({"problem": H.draw(nprob), "members": members,
                       "via": H.weighted([("evaluator", 4), ("tracker", 2), ("population", 1), ("step", 2), ("default_tracker", 2), ("gp", 2)])})
-    return {"problems": probs, "n_ind": n_ind, "genotypes": [H.draw(50) for _ in range(n_ind)], "calls": calls}
+    fault_call = H.draw(len(calls)) if H.draw(4) == 0 else None  # the call during which one fitness invocation raises
+    return {"problems": probs, "n_ind": n_ind, "genotypes": [H.draw(50) for _ in range(n_ind)], "calls": calls, "fault_call": fault_call}
 
 
 class Exec:
@@ -78,6 +81,7 @@ class Exec:
         self.rep = make_intrep()
         self.problems = []
         self.ffs = {}
+        self.fault = [None]  # [program value for which the next fitness invocation raises] (F15: a failing user callback)
         self.cur = [None]  # [index of the problem the current call evaluates for] (a shared fitness function cannot know; a plain
         # list, so that closures do not drag the simulator context across the simulated process boundary)
         for pi, p in enumerate(hist["problems"]):
@@ -91,11 +95,23 @@ class Exec:
 
         log = self.log
         cur = self.cur
+        fault = self.fault
         shared = p.get("shares_ff_with")
         if p["kind"] == "so":
-            def ff(prog):
+            def ff(prog, rtype=p.get("so_returns", "float")):
                 log.append((cur[0], prog.v, prog))
-                return f_of(prog.v)
+                if fault[0] is not None and fault[0] == prog.v:
+                    fault[0] = None
+                    log.pop()  # an invocation that raises computed no fitness
+                    raise ZeroDivisionError("injected by the simulator: the fitness function fails for this program")
+                x = f_of(prog.v)
+                if rtype == "float":
+                    return x
+                if rtype == "int":
+                    return int(x)
+                import numpy as np
+
+                return getattr(np, rtype[3:])(x)
             ff = self.ffs[shared] if shared is not None else ff
             self.ffs[pi] = ff
             return SingleObjectiveProblem(ff, minimize=p["minimize"][0])
@@ -104,6 +120,10 @@ class Exec:
 
         def ffm(prog, k=p["k"], reuse=(p.get("reuse_buffer") and p.get("returns", "list") == "list"), form=p.get("returns", "list")):
             log.append((cur[0], prog.v, prog))
+            if fault[0] is not None and fault[0] == prog.v:
+                fault[0] = None
+                log.pop()  # an invocation that raises computed no fitness
+                raise ZeroDivisionError("injected by the simulator: the fitness function fails for this program")
             if form == "tuple":
                 return tuple(f_of(prog.v, j) for j in range(k))
             if form == "generator":
@@ -150,6 +170,7 @@ def run(ctx):
     step_descs = [gen_step(H, max_depth=2, allow=("elitism", "tournament", "identity", "mutation", "crossover", "novelty")) for _ in hist["calls"]]
     ctx.sample = {"problems": hist["problems"], "genotypes": hist["genotypes"], "calls": hist["calls"][:6]}
     results = {}
+    faulted = False
     clock = SimClock(ctx)
     for mode in ("sequential", "parallel"):
         ex = Exec(ctx, hist, mode == "parallel", step_descs, "uniform")
@@ -168,6 +189,11 @@ def run(ctx):
                     ctx.faults["represent"] += 1
                 n0 = len(ex.log)
                 c0 = ex.evaluator.number_of_evaluations()
+                armed = hist.get("fault_call") == ci and call["via"] in ("evaluator", "tracker")
+                if armed:
+                    # the caller catches the exception of its own fitness function and goes on using the same individuals
+                    ex.fault[0] = members[len(members) // 2].genotype
+                    ctx.faults["callback_error"] += 1
                 fresh = len({id(m) for m in members if not m.has_fitness(problem)})
                 try:
                     if call["via"] == "evaluator":
@@ -229,8 +255,13 @@ def run(ctx):
                 except Exception as e:
                     from ..world import short_tb, exc_site
 
+                    if armed and isinstance(e, ZeroDivisionError) and "injected by the simulator" in str(e):
+                        ex.fault[0] = None
+                        faulted = True
+                        continue  # what a failed call leaves behind is judged by the later calls and the whole-history oracles
                     ctx.violate(f"C13/exception/{mode}/{call['via']}/{type(e).__name__}@{exc_site(e)}", f"{mode} evaluation via {call['via']} raised {short_tb(e)}")
                     return
+                ex.fault[0] = None
                 invoked = ex.log[n0:]
                 counted = ex.evaluator.number_of_evaluations() - c0
                 if call["via"] != "step" and len(invoked) != fresh:
@@ -277,6 +308,16 @@ def run(ctx):
                 ctx.shape = str(pool.stats)
         if interesting:
             ctx.nontrivial = True
+    if faulted:
+        # after a failed batch the two evaluators may legitimately differ in WHICH individuals got evaluated (one by one vs the
+        # whole batch or nothing); what both evaluated must still agree
+        pair = [[(a, b) for a, b in zip(ra, rb)] for ra, rb in zip(results.get("sequential") or [], results.get("parallel") or [])]
+        for i, row in enumerate(pair):
+            for a, b in row:
+                if a is not None and b is not None and a != b:
+                    ctx.violate("C13/parallel-differs-from-sequential", f"individual {i} holds different fitness after parallel evaluation than after sequential evaluation")
+                    return
+        return
     if results.get("sequential") != results.get("parallel"):
         diff = [i for i, (a, b) in enumerate(zip(results["sequential"], results["parallel"])) if a != b]
         ctx.violate("C13/parallel-differs-from-sequential", f"individuals {diff[:5]} hold different fitness after parallel evaluation than after sequential evaluation of the same history")
